@@ -32,7 +32,16 @@ def integrator_spec(draw, cls, eps_lo=0.02, eps_hi=0.3, tight=None, types=None):
     spec["tight"] = draw(st.booleans()) if tight is None else tight
     if t == "symcomp":
         k = draw(st.integers(0, 5))
-        spec["free"] = draw(st.lists(unit(0.05, 0.45), min_size=k, max_size=k))
+        free = draw(st.lists(unit(0.05, 0.45), min_size=k, max_size=k))
+        # keep the two derived coefficients away from zero (a zero sub-step is a degenerate composition: it re-assigns
+        # an unchanged variable, which legitimately invalidates the cache)
+        for _ in range(8):
+            d1 = 0.5 - sum(free[k % 2::2])
+            d2 = 1 - 2 * sum(free[(k + 1) % 2::2])
+            if abs(d1) > 1e-2 and abs(d2) > 1e-2:
+                break
+            free = [0.93 * f for f in free]
+        spec["free"] = free
         spec["initial_h1"] = draw(st.booleans())
     elif t in IMPLICIT:
         spec["solver"] = draw(st.sampled_from(["direct", "steffensen"]))
